@@ -6,6 +6,7 @@ import (
 	"sort"
 	"strings"
 
+	sdkmath "cosmossdk.io/math"
 	sdk "github.com/cosmos/cosmos-sdk/types"
 
 	ftypes "mods.irisnet.org/modules/farm/types"
@@ -54,8 +55,15 @@ type poolM struct {
 	// tainted: a finding about this pool's own bookkeeping already fired (its end height
 	// promises more than its budget); what follows from it is reported under keys of its own
 	tainted string
-	// generation-only
-	destroyAt int64
+	// opsAt/opsN: accepted messages on this pool in the block being executed (probes)
+	opsAt int64
+	opsN  int
+	// gov: created by the governance route (creator = distribution module account): the
+	// remaining budget goes back to the community pool
+	gov bool
+	// exact: generator's note (budget = rate * k); planned, destroyAt: generation-only
+	exact, planned bool
+	destroyAt      int64
 }
 
 func (p *poolM) stakeOf(addr string) *big.Int {
@@ -431,7 +439,7 @@ func (m *Module) onCreate(w *engine.World, tx *engine.TxRecord, i int, op *engin
 	p := &poolM{Idx: len(m.order), ID: id, Creator: creator, CreatorIdx: w.A(op.Actor).Idx, Lpt: a.Lpt, Editable: a.Editable,
 		Start: tx.Height + a.StartRel, Rate: map[string]*big.Int{}, Funded: map[string]*big.Int{},
 		Released: map[string]*big.Int{}, Refunded: map[string]*big.Int{}, PaidOut: map[string]*big.Int{},
-		Total: new(big.Int), Far: map[string]*farmerM{}, createdAt: tx.Height}
+		Total: new(big.Int), Far: map[string]*farmerM{}, createdAt: tx.Height, exact: a.Exact}
 	p.Last = p.Start
 	want := engine.Want{}
 	var life *big.Int
@@ -473,6 +481,9 @@ func (m *Module) onCreate(w *engine.World, tx *engine.TxRecord, i int, op *engin
 	m.byID[id] = p
 	w.Label(fmt.Sprintf("farm.pool.%d", p.Idx), id)
 	w.Hit("farm.pool_created")
+	if len(m.order) == 10 {
+		w.Hit("farm.tenth_pool_created")
+	}
 	w.Hit("C06.budget_escrow_checks")
 	if a.StartRel > 0 {
 		w.Hit("farm.pool_future_start")
@@ -566,6 +577,7 @@ func (m *Module) onStake(w *engine.World, tx *engine.TxRecord, i int, op *engine
 	sender := w.A(op.Actor).Addr.String()
 	amt := bigOf(a.Amt)
 	ph := p.phase(tx.Height)
+	m.touched(w, p, tx.Height, "stake")
 	rel := p.accrue(w, tx.Height)
 	f := p.farmer(sender)
 	want := engine.Want{}
@@ -612,6 +624,7 @@ func (m *Module) onUnstake(w *engine.World, tx *engine.TxRecord, i int, op *engi
 	tx.Resp(i, &resp)
 	sender := w.A(op.Actor).Addr.String()
 	ph := p.phase(tx.Height)
+	m.touched(w, p, tx.Height, "unstake")
 	have := p.stakeOf(sender)
 	if amt.Cmp(have) > 0 {
 		// C05: "withdraw any amount up to their full recorded stake"
@@ -661,6 +674,7 @@ func (m *Module) onHarvest(w *engine.World, tx *engine.TxRecord, i int, op *engi
 	tx.Resp(i, &resp)
 	sender := w.A(op.Actor).Addr.String()
 	ph := p.phase(tx.Height)
+	m.touched(w, p, tx.Height, "harvest")
 	rel := p.accrue(w, tx.Height)
 	f := p.farmer(sender)
 	want := engine.Want{}
@@ -690,6 +704,7 @@ func (m *Module) onAdjust(w *engine.World, tx *engine.TxRecord, i int, op *engin
 		w.Hit("farm.adjust_by_stranger_accepted")
 	}
 	ph := p.phase(tx.Height)
+	m.touched(w, p, tx.Height, "adjust")
 	rel := p.accrue(w, tx.Height)
 	want := engine.Want{}
 	for _, d := range p.Denoms {
@@ -764,6 +779,7 @@ func (m *Module) onDestroy(w *engine.World, tx *engine.TxRecord, i int, op *engi
 		w.Hit("farm.destroy_by_stranger_accepted")
 	}
 	ph := p.phase(tx.Height)
+	m.touched(w, p, tx.Height, "destroy")
 	if p.Ended {
 		// C06: "exactly once": a second ending has nothing left to return; whatever it
 		// moves shows in the sheet comparison below
@@ -808,6 +824,9 @@ func (m *Module) OnEndBlock(w *engine.World, ph *engine.Phase) { m.endSheet = ph
 
 func (m *Module) OnCommit(w *engine.World) {
 	h := w.Height
+	if h < 2 {
+		return // the genesis block: the bank mirror and the genesis pool's model are installed after it
+	}
 	ctx := w.Node.Ctx()
 	k := w.Node.K.Farm
 	res, err := k.FarmPools(ctx, &ftypes.QueryFarmPoolsRequest{})
@@ -898,8 +917,30 @@ func (m *Module) OnCommit(w *engine.World) {
 			want.Put(farmAddr, d, neg(rel[d]))
 			want.Put(collAddr, d, rel[d])
 		}
+		lastSpan := false
+		for _, d := range p.Denoms {
+			if rel[d].Sign() > 0 {
+				lastSpan = true
+			}
+		}
 		ref := p.finish("expiry", h, want)
 		ending++
+		paidOut := true
+		for _, d := range p.Denoms {
+			if ref[d].Sign() != 0 {
+				paidOut = false
+			}
+		}
+		if paidOut {
+			// the whole budget was paid out: nothing to return to the creator
+			w.Hit("farm.pool_expired_nothing_to_refund")
+			if lastSpan {
+				w.Hit("farm.pool_expired_nothing_to_refund_last_span_in_end_block")
+			}
+		}
+		if p.gov {
+			w.Hit("farm.gov_pool_expired")
+		}
 		if p.tainted != "" {
 			endTaint = p
 		}
@@ -930,10 +971,13 @@ func (m *Module) OnCommit(w *engine.World) {
 			}
 		}
 		for _, a := range engine.SortedKeys(watch) {
-			if w.ActorOf(a) == nil && a != farmAddr && a != collAddr {
+			if w.ActorOf(a) == nil && a != farmAddr && a != collAddr && a != distrAddr {
 				continue
 			}
 			for _, d := range engine.SortedKeys(denoms) {
+				if a == distrAddr && !m.govDenom(d) {
+					continue // the distribution account has a life of its own in other denoms
+				}
 				wv := new(big.Int)
 				if want[a] != nil && want[a][d] != nil {
 					wv = want[a][d]
@@ -1076,6 +1120,30 @@ func (m *Module) OnCommit(w *engine.World) {
 				h, have, d, m.donated[d], sumLocked[d], sumRemaining[d])
 		}
 	}
+	// C06: "the remaining budget is returned to the creator (or community pool) exactly once":
+	// for a pool created by governance the distribution module account and the community
+	// pool record both hold exactly what was returned (the pool's denoms exist nowhere else)
+	for _, p := range m.order {
+		if !p.gov {
+			continue
+		}
+		fp, err := w.Node.App.DistrKeeper.FeePool.Get(ctx)
+		if err != nil {
+			engine.Fatal("fee pool: %v", err)
+		}
+		for _, d := range p.Denoms {
+			w.Hit("C06.community_pool_checks")
+			rec := fp.CommunityPool.AmountOf(d)
+			bal := w.Bal(distrAddr, d)
+			if bal.Cmp(p.Refunded[d]) != 0 || !rec.Equal(sdkmath.LegacyNewDecFromBigInt(p.Refunded[d])) {
+				m.vio(w, p, "C06", "refund/community-pool", "pool %s (created by governance, ended=%v at %d) denom %s after height %d: returned budget is %s; the distribution module account holds %s, the community pool record says %s",
+					p.ID, p.Ended, p.EndedAt, d, h, p.Refunded[d], bal, rec)
+			}
+		}
+		if p.Ended {
+			w.Hit("farm.gov_pool_refunded_to_community_pool")
+		}
+	}
 	// stored parameters follow the last accepted authority update
 	got := k.GetParams(ctx)
 	wantP := sdkParams(m.par)
@@ -1100,6 +1168,45 @@ func farmerQuery(w *engine.World, addr, pool string) (resp *ftypes.QueryFarmerRe
 		}
 	}()
 	return w.Node.K.Farm.Farmer(w.Node.Ctx(), &ftypes.QueryFarmerRequest{Farmer: addr, PoolId: pool})
+}
+
+// touched counts the accepted farm messages on a pool per block and records the shapes the
+// properties' quantifiers name (probes only).
+func (m *Module) touched(w *engine.World, p *poolM, h int64, kind string) {
+	if p.opsAt != h {
+		p.opsAt, p.opsN = h, 0
+	}
+	p.opsN++
+	if p.opsN >= 2 {
+		w.Hit("farm.same_block_later_op")
+		if kind == "harvest" {
+			w.Hit("farm.same_block_later_harvest")
+		}
+		if kind == "unstake" {
+			w.Hit("farm.same_block_later_unstake")
+		}
+	}
+	if p.opsN == 3 {
+		w.Hit("farm.three_ops_one_pool_one_block")
+	}
+	if len(m.order) >= 10 {
+		for _, q := range m.order {
+			if q != p && strings.HasPrefix(q.ID, p.ID) {
+				w.Hit("farm.op_on_pool_whose_id_prefixes_another")
+				break
+			}
+		}
+	}
+}
+
+// govDenom: a reward denom of a governance-created pool.
+func (m *Module) govDenom(d string) bool {
+	for _, p := range m.order {
+		if p.gov && p.Funded[d] != nil {
+			return true
+		}
+	}
+	return false
 }
 
 func (p *poolM) phaseClass(h int64) string {
